@@ -89,14 +89,15 @@ type hot struct {
 }
 
 type scenario struct {
-	stable  []prefix
-	filler  []prefix // preloaded and never touched again, outside the probed regions
-	scripts [][]wop
-	owned   [][]prefix // per writer: its pairwise disjoint ranges
-	toggle  bool       // writer 0 also toggles 0.0.0.0/0
-	readers int
-	sixteen bool
-	twins   int
+	stable      []prefix
+	filler      []prefix // preloaded and never touched again, outside the probed regions
+	scripts     [][]wop
+	owned       [][]prefix // per writer: its pairwise disjoint ranges
+	toggle      bool       // writer 0 also toggles 0.0.0.0/0
+	readers     int
+	sixteen     bool
+	zeroNetLast bool // one stable range begins at 0.0.0.0 and is loaded last
+	twins       int
 }
 
 func genScenario(t *rapid.T) *scenario {
@@ -119,11 +120,21 @@ func genScenario(t *rapid.T) *scenario {
 		}
 		sc.stable = append(sc.stable, prefix{(10<<24 | uint32(i)<<16 | uint32(rapid.IntRange(0, 65535).Draw(t, "stableLow"))) & mask(ones), ones})
 	}
+	// in a third of the scenarios one more stable range begins at 0.0.0.0 (0.0.0.0/8, /12, /16: a network address of
+	// zero is an address like any other) and is the last entry loaded before the writers start; in half of those the
+	// list is left well short of its capacity, so that the filter stays in list mode for a while (round twenty-three)
+	if rapid.IntRange(0, 2).Draw(t, "stableRangeAtZero") == 0 {
+		sc.stable = append(sc.stable, prefix{0, rapid.SampledFrom([]int{8, 12, 16}).Draw(t, "zeroOnes")})
+		sc.zeroNetLast = true
+	}
 	nstable = len(sc.stable)
 	// preload so that the list is close to overflowing when the writers start
 	w := rapid.IntRange(1, 4).Draw(t, "writers")
 	// often exactly at the capacity of the list (256 entries), one below or one above it
 	total := rapid.OneOf(rapid.IntRange(200, 262), rapid.SampledFrom([]int{254, 255, 256, 256, 256, 257})).Draw(t, "preloadTotal")
+	if sc.zeroNetLast && rapid.Bool().Draw(t, "roomInTheList") {
+		total = rapid.IntRange(nstable, 120).Draw(t, "smallPreload")
+	}
 	for i := nstable; i < total; i++ {
 		sc.filler = append(sc.filler, prefix{40<<24 | uint32(i)<<8, 24})
 	}
@@ -181,6 +192,9 @@ func run(sc *scenario) (string, outcome) {
 	var oc outcome
 	f := netutil.NewIPv4Filter()
 	for _, p := range sc.stable {
+		if sc.zeroNetLast && p.net == 0 {
+			continue // loaded last, below
+		}
 		if err := f.Add(ipnet(p)); err != nil {
 			return "preload Add failed: " + err.Error(), oc
 		}
@@ -188,6 +202,16 @@ func run(sc *scenario) (string, outcome) {
 	for _, p := range sc.filler {
 		if err := f.Add(ipnet(p)); err != nil {
 			return "preload Add failed: " + err.Error(), oc
+		}
+	}
+	if sc.zeroNetLast {
+		// the stable range that begins at 0.0.0.0 is the youngest entry when the writers start
+		for _, p := range sc.stable {
+			if p.net == 0 {
+				if err := f.Add(ipnet(p)); err != nil {
+					return "preload Add failed: " + err.Error(), oc
+				}
+			}
 		}
 	}
 	var adds atomic.Int64
